@@ -852,28 +852,9 @@ def percent_literal_in_deferred_constraint_sql(case, outcome, atoms):
 # C03 findings
 # ---------------------------------------------------------------------------
 
-@explainer
-def optimiser_rewrites_definitions_in_place(case, outcome, atoms):
-    """AppMutator._process_mutation_batch assigns to the mutation objects it was
-    given (field_name, new_field_name, field_attrs, field_type, initial,
-    model_name, new_model_name, db_table), although they are the module-level
-    evolution definitions.  Consequences that are explained with it: str() of a
-    definition differs after processing, and processing the same objects again
-    (B2, or the Evolver's second optimiser pass) sees the rewritten sequence."""
-    changed = any(a[0] in ('b_definitions_changed', 'e_definitions_changed') for a in atoms)
-    if not changed:
-        return atoms
-    out = []
-    for a in atoms:
-        if a[0] in ('b_definitions_changed', 'e_definitions_changed'):
-            continue
-        if a[0].startswith('b2_'):
-            continue
-        if a[0] == 'e_rejected' and any(x[0] == 'e_definitions_changed' for x in atoms):
-            # the Evolver's second optimiser pass met the rewritten definitions
-            continue
-        out.append(a)
-    return out
+# (F-C03-1, the optimiser rewriting the evolution definitions in place, was repaired in
+# /repo - X-C03-2; its explainer and the structural flag add_then_rename are gone, so the
+# atoms b_definitions_changed / e_definitions_changed / b2_* are violations again)
 
 
 def _c03_case(case):
@@ -1129,18 +1110,6 @@ def c03_flags(case, outcome=None):
                     any(m['name'] in (o, n_) for o, n_ in pairs) and \
                     set(m['attrs']) & {'unique', 'db_index', 'db_column'}:
                 flag(uids[i], 'rename_stale_state')
-    # AddField folded with a later RenameField of the same field: the optimiser rewrites the
-    # AddField definition in place (F-C03-1); the Evolver's second pass then meets a
-    # RenameField whose source no longer exists
-    for b in _batches(case):
-        added = set()
-        for i in b:
-            m = seq[i]
-            if m['kind'] == 'AddField':
-                added.add((uids[i], m['field']['name']))
-            if m['kind'] == 'RenameField' and (uids[i], m['old']) in added:
-                flag(uids[i], 'add_then_rename')
-                added.add((uids[i], m['new']))
     # several ChangeFields of one field in the whole case (folding also looks across
     # barriers through the stale signature), or a ChangeField of a field added in the case
     per_field = {}
